@@ -275,6 +275,7 @@ class World(object):
     """One real service (plus its database files) under harness control."""
 
     _uid_counter = 0
+    _closed_count = 0
 
     def __init__(self, cfg=None, uid=None, root=None, keep_dir=None):
         install_shims()
@@ -685,6 +686,16 @@ class World(object):
                 _ACTIVE = None
             if self.owns_dir:
                 shutil.rmtree(self.dir, ignore_errors=True)
+            # a world is one big reference cycle (service <-> protocols <-> recorder closures): break it and
+            # let the collector run regularly, otherwise a long campaign grows by ~0.4 MB per case
+            self.steps = []
+            self.conns = {}
+            self.frame_hooks = []
+            self.parent = self.server = self.timer = self.wsfactory = self.R = None
+            World._closed_count += 1
+            if World._closed_count % 50 == 0:
+                import gc
+                gc.collect()
 
     def __enter__(self):
         return self
